@@ -350,6 +350,9 @@ func runC17(env *Env, s Scenario) {
 				avoid = append(avoid, res[m])
 			}
 		}
+		if dead := deadAlternative(levels[n].Pattern, levels[n].NotContains); dead != "" {
+			fail("level-excludes-its-own-prompt", "level %s: prompts like %q match its pattern but are excluded by its own not-contains list %q: the level can never be recognised from them", n, dead, levels[n].NotContains)
+		}
 		pr := canonicalPrompt(levels[n].Pattern, levels[n].NotContains, avoid)
 		if pr == "" {
 			env.Res.HarnessError = fmt.Sprintf("could not synthesise a prompt for %s/%s pattern %q", sc.Platform, n, levels[n].Pattern)
